@@ -1424,11 +1424,22 @@ const char* rtosc_skip_next_printed_arg(const char* src, int* skipped,
                 bool llhsarg_is_useless = false;
                 if(llhssrc)
                 {
-                    const char* next_ellipsis_from_llhssrc =
-                            strstr(llhssrc, "...");
-                    if(next_ellipsis_from_llhssrc < ellipsis)
+                    // is the llhs argument itself a range "x ... y"?
+                    // (do not search the text for "...": it may stand inside
+                    //  a comment, a string or the "(...+" of a time tag)
+                    int llhs_first_skipped;
+                    char llhs_first_type;
+                    const char* llhs_first_end =
+                        rtosc_skip_next_printed_arg(llhssrc,
+                                                    &llhs_first_skipped,
+                                                    &llhs_first_type,
+                                                    NULL, 0, inside_bundle);
+                    if(llhs_first_end)
+                        while(isspace(*llhs_first_end)) ++llhs_first_end;
+                    if(llhs_first_end && llhs_first_end < ellipsis &&
+                       !strncmp(llhs_first_end, "...", 3))
                     {
-                        llhssrc = next_ellipsis_from_llhssrc + 2;
+                        llhssrc = llhs_first_end + 2;
                         while(isspace(*++llhssrc)) ;
                     }
                     else if(is_range_multiplier(llhssrc))
